@@ -10,6 +10,9 @@ Correspondence (K):
   (b) `reg --format` rows (posting line|account|payee|exact amount|date|state) under no limit, --limit P,
       --limit '!(P)', Q, P&Q, P|Q, two --limit options, a command-line query, the query's equivalent
       expression, --begin / --end / both, compared with Filter.report_posts on the same abstract journal.
+  (f) tag terms with a value (`%word=value`, `tag|meta|data word=value`, has_tag(/word/, /value/) under --limit) on
+      journals whose items carry several valued tags with overlapping names, compared with the model and judged
+      against the tags the register displays (finding F207: the first name-matching tag decides).
 Oracle (O): the set identities of the property text between the paired ledger runs (python sets over the
   printed rows; no predicate is evaluated in python)."""
 import datetime, os, re
@@ -21,7 +24,7 @@ META = dict(
     id='C07',
     level='proof',
     technique='Coq proof (set algebra of the posting filter over a model of predicate evaluation; query lexer/parser model with a parse theorem for rendered query trees) + differential correspondence of the extracted model against ledger',
-    level_text='Theorems in coq/Properties/Properties_C07.v state, for all posting lists and all predicates whose evaluation does not error: --limit P and --limit !P select disjoint order-preserving sub-sequences of the unfiltered list that merge back to it, with every posting passed through unchanged; & and | (with the non-boolean results of op.cc O_AND/O_OR/O_NOT) select intersection and union; several limits compose, and sequences of limit contributions (--limit, -b, -e, -C, -U, --pending, -R, -L, -c, -p bounds, the query - all through the limit_ handler whose combine expression the translator re-reads from report.h/option.h on every run) select the intersection of what each selects alone, independent of order and repetition (the one exception, -c under -e, is finding F95 and stated as current_with_end_refuted); --begin D / --end D keep exactly date >= D / date < D and are complementary; and the model of the command-line query parser (query.cc lexer and precedence ladder, transcribed) maps a rendered query tree (account/payee/code/note terms, not/and/or in both spellings, juxtaposition, minimal parentheses; one token per argument) to the intended expression in both lexing modes, so such a query selects what its expression selects (query_parse_spec_partial: tag selectors, expr, quoted patterns and several tokens per argument are covered by the correspondence only). The model is tied to the code by comparing the parsed predicate text of thousands of generated argument vectors (`query` pre-command, both lexing modes) the register rows of generated journals under fifteen paired limit settings, and option sequences with repetitions in two orders against each contribution alone, with the extracted model.',
+    level_text='Theorems in coq/Properties/Properties_C07.v state, for all posting lists and all predicates whose evaluation does not error: --limit P and --limit !P select disjoint order-preserving sub-sequences of the unfiltered list that merge back to it, with every posting passed through unchanged; & and | (with the non-boolean results of op.cc O_AND/O_OR/O_NOT) select intersection and union; several limits compose, and sequences of limit contributions (--limit, -b, -e, -C, -U, --pending, -R, -L, -c, -p bounds, the query - all through the limit_ handler whose combine expression the translator re-reads from report.h/option.h on every run) select the intersection of what each selects alone, independent of order and repetition (the one exception, -c under -e, is finding F95 and stated as current_with_end_refuted); has_tag(word, value) never selects a posting without a tag containing word whose value contains value and selects every such posting when the name-matching valued tags agree (in general the first name-matching tag decides: finding F207, has_tag_value_complete_refuted); --begin D / --end D keep exactly date >= D / date < D and are complementary; and the model of the command-line query parser (query.cc lexer and precedence ladder, transcribed) maps a rendered query tree (account/payee/code/note terms, not/and/or in both spellings, juxtaposition, minimal parentheses; one token per argument) to the intended expression in both lexing modes, so such a query selects what its expression selects (query_parse_spec_partial: tag selectors, expr, quoted patterns and several tokens per argument are covered by the correspondence only). The model is tied to the code by comparing the parsed predicate text of thousands of generated argument vectors (`query` pre-command, both lexing modes) the register rows of generated journals under fifteen paired limit settings, and option sequences with repetitions in two orders against each contribution alone, with the extracted model.',
     level_note='Trusted: Coq kernel; extraction + OCaml driver and the python harness for the correspondence. Regular expressions are literal patterns (case-insensitive ASCII substring search stands for boost::regex icase search); the value-expression parser that reads --limit text and `expr ARG` is C15\'s subject and is a parameter of the query model; journal text -> in-memory posting (notes, tags, state inheritance) is computed by the harness renderer and validated through the same correspondence. show/only/bold/for/since/until query sections are outside the modelled fragment.',
     design_ref='DESIGN.md section 7 C07',
     assumptions=['patterns are literal: letters, digits, space, colon (no regex metacharacters); ASCII only',
@@ -600,11 +603,17 @@ def run(ctx, scale=1):
     res.rule += ('; (c) sequences of 1-6 limit contributions with repetitions and in two orders (--limit, -b, -e, -C, -U, '
                  '--pending, -R, -L, -c under a --now inside the journal, -p from/to, a query) against each contribution '
                  'alone; non-trivial = the sequence repeats a contribution or selects a non-empty proper subset')
+    res.rule += ('; (f) journals whose postings and transactions carry up to 3 valued tags with overlapping names '
+                 '(food/Foodie, trip/rip, Project/Proj2) x tag terms `%word=value`, `tag|meta|data word=value`, `%word` and '
+                 'the same has_tag(...) under --limit, judged against the tags the register displays for each posting '
+                 '(%(tag("name")) per name) by the manual\'s meaning "any metadata tag containing word whose value contains '
+                 'value"; non-trivial = some posting has several tags whose name contains the word, or a non-empty proper subset')
     part_a(ctx, rng, res, scale)
     part_b(ctx, rng, res, scale)
     part_c(ctx, rng, res, scale)
     part_d(ctx, rng, res, scale)
     part_e(ctx, rng, res, scale)
+    part_f(ctx, rng, res, scale)
     return res
 
 
@@ -1370,6 +1379,174 @@ def part_e(ctx, rng, res, scale):
                     break
 
 
+# ---------------------------------------------------------------- (f) tag queries with a value against the displayed tags
+FTAGS = ['food', 'Foodie', 'trip', 'rip', 'Project', 'Proj2', 'client']
+FVALS = ['alpha', 'beta', 'Gamma', 'alphabet', 'be', 'tab', 'one']
+FMT_F = FMT[:-2] + '|' + ';'.join('%%(tag("%s"))' % t for t in FTAGS) + '\\n'
+
+
+def gen_tag_journal(rng, nx):
+    """transactions whose postings (and some transactions) carry 0-3 valued tags `name: value`; the names of
+    one posting and of its transaction are distinct, so %(tag("name")) displays every tag a posting has"""
+    out, posts = [], []
+
+    def emit(s):
+        out.append(s)
+        return len(out)
+
+    def tagset(exclude, nmax):
+        names = [t for t in rng.sample(FTAGS, rng.choice(list(range(nmax + 1)) + [2])) if t.lower() not in exclude]
+        return {t: rng.choice(FVALS) for t in names}
+
+    for _ in range(nx):
+        xdate = D0 + datetime.timedelta(days=rng.randrange(0, 70))
+        payee = rng.choice(PAYEES)
+        xtags = tagset(set(), 1) if rng.random() < 0.4 else {}
+        emit(xdate.strftime('%Y/%m/%d') + ' ' + payee)
+        xlines = [' %s: %s' % kv for kv in xtags.items()]
+        for l in xlines:
+            emit('    ;' + l)
+        q = F(rng.randrange(1, 5000), 100)
+        for acct, amount in ((rng.choice(ACCOUNTS), q), (rng.choice(ACCOUNTS), -q)):
+            ptags = tagset({t.lower() for t in xtags}, 3)
+            items = list(ptags.items())
+            rng.shuffle(items)
+            plines = [' %s: %s' % kv for kv in items]
+            ln = emit('    %s    %s' % (acct, amt_text(amount, COMMS[0])))
+            for l in plines:
+                emit('    ;' + l)
+            posts.append(dict(id=ln, account=acct, payee=payee, code=None,
+                              note='\n'.join(plines) if plines else None, xnote='\n'.join(xlines) if xlines else None,
+                              tags=sorted(ptags.items(), key=lambda kv: kv[0].lower()),
+                              xtags=sorted(xtags.items(), key=lambda kv: kv[0].lower()),
+                              q=amount, comm='$', date=None, xdate=xdate, state='u', virtual=False))
+        emit('')
+    return '\n'.join(out) + '\n', posts
+
+
+def shown_tags(row):
+    """the tags the register displays for a row (FMT_F): name -> value"""
+    vals = row.split('|')[6].split(';')
+    return {n: v for n, v in zip(FTAGS, vals) if v}
+
+
+def tag_expect(t, row):
+    """property text / manual: `tag word=value` = any metadata tag containing 'word' whose value contains 'value'"""
+    _, tp, vp = t
+    return any(tp.lower() in n.lower() and (vp is None or vp.lower() in v.lower()) for n, v in shown_tags(row).items())
+
+
+def tag_key(t, row, via, selected):
+    kind = 'tag-value' if t[2] is not None else 'tag-name'
+    if selected:
+        return '%s:%s:reported-without-matching-tag' % (kind, via)
+    n = sum(1 for name in shown_tags(row) if t[1].lower() in name.lower())
+    return '%s:%s:omitted%s' % (kind, via, '-with-several-name-matching-tags' if n > 1 else '')
+
+
+def run_reg_f(journal, limits):
+    args = ['-f', journal, '--now', NOW, 'reg', '--empty', '--format', FMT_F]
+    tail = []
+    for l in limits:
+        if l[0] == 'e':
+            args += ['--limit', l[1]]
+        else:
+            tail += list(l[1])
+    st, out, err = lib.run_ledger(args + tail)
+    if st not in (0, 1):
+        return 'CRASH(%s)' % st, []
+    if st != 0 or b'Error' in err:
+        return 'ERR', []
+    return 'OK', [r for r in out.decode('utf-8', 'replace').split('\n') if r]
+
+
+def tag_violation(res, text, name, limits, t, rall, st, rows):
+    """evaluate the documented meaning of the tag term on the displayed tags; True when it holds"""
+    what = ' '.join(str(x) for l in limits for x in ([l[1]] if l[0] == 'e' else l[1]))
+    via = 'query' if limits[0][0] == 'qry' else 'limit'
+    case = dict(journal=text, tagruns=[(name, [(l[0], l[1]) for l in limits], list(t))])
+    if st != 'OK':
+        res.violations.append(dict(key='tag-value:%s:fails' % via, desc='%s failed' % what, case=case, observed=st, required='a report'))
+        return False
+    sel = set(rows)
+    for r in rall:
+        want = tag_expect(t, r)
+        if (r in sel) != want:
+            f = r.split('|')
+            res.violations.append(dict(
+                key=tag_key(t, r, via, r in sel),
+                desc='%s %s the posting on line %s, whose tags are displayed as %s; it %s a tag containing %r%s'
+                     % (what, 'reports' if r in sel else 'omits', f[0], shown_tags(r), 'has' if want else 'has not', t[1],
+                        '' if t[2] is None else ' whose value contains %r' % t[2]),
+                case=dict(case, line=f[0], want=want), observed=[x.split('|')[0] for x in rows],
+                required='line %s %s' % (f[0], 'in' if want else 'out')))
+            return False
+    return True
+
+
+def part_f(ctx, rng, res, scale):
+    nf = ctx.scale(60, 400) * scale
+    jobs, metas = [], []
+    for j in range(nf):
+        text, posts = gen_tag_journal(rng, rng.choice([2, 3, 4]))
+        path = ctx.path('t%d.dat' % j)
+        open(path, 'w').write(text)
+        runs = [('all', [], None)]
+        for i in range(5):
+            tp = flipcase(rng, rng.choice(['food', 'oo', 'rip', 'r', 'p', 'proj', 'o', 't', 'client', 'trip', 'i', 'zz']))
+            vp = None if rng.random() < 0.25 else flipcase(rng, rng.choice(FVALS + ['a', 'e', 'al', 'zz']))
+            t = ('tag', tp, vp)
+            term = tp if vp is None else '%s=%s' % (tp, vp)
+            argv = rng.choice([['%' + term], ['tag', term], ['meta', term], ['data', term], ['%', term]])
+            if vp is not None and rng.random() < 0.2:
+                argv = argv[:-1] + [argv[-1][:-len(vp)], vp]           # the value as an argument of its own
+            runs.append(('q%d' % i, [('qry', argv, [])], t))
+            runs.append(('l%d' % i, [('e', render_expr(t), t)], t))
+        metas.append(dict(j=j, path=path, text=text, posts=posts, runs=runs))
+        for name, limits, _ in runs:
+            jobs.append((path, limits))
+    outs = pmap(lambda jb: run_reg_f(jb[0], jb[1]), jobs)
+    lines = [lib.sx(['f', 't%d' % m['j'], ['posts'] + [post_sx(p) for p in m['posts']],
+                     ['runs'] + [['run', name] + [limit_sx(l) for l in limits] for name, limits, _ in m['runs']]])
+             for m in metas]
+    model = lib.run_model('C07', lines)
+    k = 0
+    for m in metas:
+        rall = outs[k][1]
+        want_ids = [str(p['id']) for p in m['posts']]
+        for name, limits, t in m['runs']:
+            st, rows = outs[k]
+            mo = model[k].split(' ', 2)
+            k += 1
+            res.evaluations += 1
+            res.traces += 1
+            res.count('f:%s:%s' % (name.rstrip('0123456789'), st))
+            case = dict(journal=m['text'], tagrun=name, limits=[(l[0], l[1]) for l in limits])
+            mstat = 'ERR' if mo[2].startswith(('ERR', 'QERR')) else 'OK'
+            mrows = [r for r in mo[2][3:].split(';') if r] if mstat == 'OK' else []
+            irows = [canon_row(r) for r in rows]
+            if st != mstat or (st == 'OK' and irows != mrows):
+                res.disagreements.append(dict(name='C07/tag-rows', case=case, impl=[st] + irows, model=[mstat] + mrows))
+            if t is None:
+                if st != 'OK' or ids(rows) != want_ids:
+                    res.disagreements.append(dict(name='C07/journal-rendering', case=m['text'], impl=ids(rows), model=want_ids))
+                    break
+                # the display must show the tags the journal writes (name: value per posting, inherited from the transaction)
+                for r, p in zip(rows, m['posts']):
+                    wrote = {n.lower(): v for n, v in list(p['tags']) + list(p['xtags'])}
+                    if {n.lower(): v for n, v in shown_tags(r).items()} != wrote:
+                        res.disagreements.append(dict(name='C07/tag-display', case=m['text'], impl=shown_tags(r), model=wrote))
+                continue
+            if any(sum(1 for n in shown_tags(r) if t[1].lower() in n.lower()) > 1 for r in rall):
+                res.count('f:several-tag-names-match')
+                res.nontrivial.add('t:%d:%s' % (m['j'], name))
+            elif 0 < len(rows) < len(rall):
+                res.nontrivial.add('t:%d:%s' % (m['j'], name))
+            tag_violation(res, m['text'], name, limits, t, rall, st, rows)
+        if m['j'] == 0:
+            res.samples.append(dict(journal=m['text'][:400], tag_query=m['runs'][1][1][0][1], rows=ids(outs[k - len(m['runs']) + 1][1])))
+
+
 def search(ctx, broken):
     import random
     for s in range(3):
@@ -1388,6 +1565,17 @@ def replay(ctx, obj):
         print('replay: query %r -> %s (required %s)' % (case['argv'], got, obj.get('required')))
         if got == obj.get('observed'):
             res.violations.append(dict(key=obj['key'], desc=obj['desc']))
+        return res
+    if 'tagruns' in case:
+        path = ctx.path('replay.dat')
+        open(path, 'w').write(case['journal'])
+        st, rall = run_reg_f(path, [])
+        print('replay: all -> %s %s' % (st, [r.split('|')[0] + ':' + str(shown_tags(r)) for r in rall]))
+        for name, limits, t in case['tagruns']:
+            limits = [tuple(l) for l in limits]
+            st, rows = run_reg_f(path, limits)
+            print('replay: %s %s -> %s %s' % (name, limits, st, ids(rows)))
+            tag_violation(res, case['journal'], name, limits, tuple(t), rall, st, rows)
         return res
     if 'flagruns' in case or 'flagrun' in case:
         path = ctx.path('replay.dat')
